@@ -23,9 +23,6 @@ def handle (what : String) (shape : List Nat) : Option String :=
   | "rev" => some (sep (axes.map fun a =>
       let r0 := revTable shape a 0; let r1 := revTable shape a 1
       showInts ((List.range (numCells shape)).flatMap fun c => [r0.getD c 0, r1.getD c 0])))
-  | "connpt" => some (showNats ((List.range (numFaces shape)).flatMap fun f => [(conn shape f).1, (conn shape f).2]))
-  | "revpt" => some (sep (axes.map fun a => showInts ((List.range (numCells shape)).flatMap fun c =>
-      [rev shape a c 0, rev shape a c 1])))
   | "interior" => some (sep (axes.map fun a => showNats (interiorFaces shape a)))
   | "exterior" => some (sep (axes.map fun a => showNats (exteriorFaces shape a)))
   | "cellindex" => some (showNats ((boxF shape).map (encF shape)))
@@ -41,7 +38,7 @@ def dispatch : List String → Option String
     -- generate_grid on the image geometry: voxel shape (matrix order), dimensions (matrix order)
     let ((shape, dims), _) ← (do let s ← P.list P.nat; let d ← P.list P.rat; pure (s, d)).run rest
     let dim ← (match shape.length with | 1 => some Dim.d1 | 2 => some Dim.d2 | 3 => some Dim.d3 | _ => none)
-    let cs : CS := { dim := dim, shape := shape, dims := dims, origin := [] }
+    let cs : CS := { dim := dim, shape := shape, dims := dims, origin := shape.map fun _ => (0 : Rat) }
     let g := generateGrid cs
     pure (sep [showNats g.1, showRats g.2, showRat (vol g.2 * (numCells g.1 : Nat)), showRat (prodR dims),
       (match gridGuard g.1 g.2 with | .ok _ => "ok" | .error e => e.show)])
